@@ -44,6 +44,11 @@ CHECKS = {
          "The C02 specification families under six layouts and the C04 multi-block / multi-file splits are compiled; for every application, type, field, endpoint, statement and annotation the model's source_contexts must name the declaring file and the zero-based position of the first character of each declaration, one per declaration in order, with end >= start and start inside the file.",
          "start convention per element kind as listed in evidence.assumptions; implied elements and inline attribute entries are exempt",
          "DESIGN.md §4 C08"),
+ "C09": ("exploration",
+         "bounded-exhaustive model set (corpus + generated families + complete string sweep over a 12-token alphabet) x all encodings x decode / re-import, proto equality oracle on the real encoders, decoders and import path",
+         "Every model is encoded with pbutil in binary, JSON and text form, indented and compact, decoded again and compared with proto.Equal; JSON must be well-formed; a root file that only imports the encoded file is compiled by the real parser and its applications compared (locations and import list ignored). The string sweep places every sequence of <=2 (thorough 3) tokens (quotes, backslashes, '\": ', double spaces, newlines, tabs, braces...) in name parts, long names, attribute values, array elements and multi-line annotations.",
+         "library-level round trip on compiler-produced models",
+         "DESIGN.md §4 C09"),
  "C18": ("model_checking",
          "explicit-state product of a reference path automaton with the real ChrootFs over all path strings up to the segment bound; loader runs on a recording filesystem",
          "Every path string over a 6-segment alphabet up to 5 (thorough 7) segments x absolute/relative x trailing slash x 7 root spellings x every wrapper operation (rename arguments independently) is pushed through the real syslutil.ChrootFs onto a recording filesystem; safety (nothing outside the root reaches the filesystem) and liveness (never-leaving spellings are served at root+canonical path) are checked on every transition. The real loader is also run on every (module spelling, import spelling) pair.",
